@@ -10,7 +10,7 @@
 //        answer `ok shape=<view shape> data=<the array's elements afterwards, C order>`
 //   tree f=add|concat shape=<dims> shape2=<dims> opa=<stage> opb=<stage> [axis=<int>] [mode=view|out]
 //        f(stage_a(A), stage_b(B)) over dynamic arrays, A data[k]=k, B data[k]=1000+k; stage syntax as in h_c02.cpp
-//        (transpose / reshape / tile / bcast / slice), `id` = the array itself
+//        (transpose / reshape / bcast / slice), `id` = the array itself
 //   assign shape=<dims> threads=<n> bsz=<b>
 //        na::assign_result(out, flip(a), tid, bid, bsz) for n threads (n may exceed the element count): the output is a
 //        raw buffer of exactly size(a) ints seen through view::mutable_ref(ptr, n) reshaped by create-free mutable_reshape.
@@ -24,7 +24,6 @@
 #include "nmtools/array/eval/kernel_helper.hpp"
 #include "nmtools/array/view/transpose.hpp"
 #include "nmtools/array/view/reshape.hpp"
-#include "nmtools/array/view/tile.hpp"
 #include "nmtools/array/view/flip.hpp"
 #include "nmtools/array/view/broadcast_to.hpp"
 #include "nmtools/array/view/slice.hpp"
@@ -123,7 +122,6 @@ template <typename A, typename K> inline std::string leaf(const A& a, const Stag
     if (kd == "id") return k(a);
     if (kd == "transpose") return cont(view::transpose(a, lst<int>(arg(st, 0))), k);
     if (kd == "reshape") return cont(view::reshape(a, lst<int>(arg(st, 0))), k);
-    if (kd == "tile") return cont(view::tile(a, lst<size_t>(arg(st, 0))), k);
     if (kd == "bcast") return cont(view::broadcast_to(a, lst<size_t>(arg(st, 0))), k);
     if (kd == "slice") {
         const auto& f = arg(st, 0); if (f.size() % 3) throw bad_args("slice");
